@@ -62,3 +62,13 @@ func (this *RaftGroup) VerifForget() {
 	delete(verifSnapshotChans, this)
 	<-verifSnapshotMu
 }
+
+// VerifJoinReply is called by the joining side of the hand-shake when the member's reply is on its way and
+// nothing of it has been processed yet (a reply that is overtaken by newer membership changes).
+var VerifJoinReply func()
+
+func verifJoinReply() {
+	if h := VerifJoinReply; h != nil {
+		h()
+	}
+}
